@@ -191,7 +191,7 @@ func init() {
 		Explanation: "Every setting has one effect summary (field written := function of the argument, per path condition on the argument), extracted by exploring the option's setter closure and the NodeBuilder / BatchNodeBuilder methods of the same name; forms with the same parameter type must have equal summaries, each path writes exactly one field, builder methods return their receiver. The constructors NewBaseNode / NewNode / NewBatchNode are explored with a monitor for the classification loop (each argument visited in ascending order and collected once under its established type) and the application loops (each collected list applied element by element, once, in ascending order, every collected list applied); the option kinds NewNode and NewBatchNode accept must coincide; base options and function options write disjoint fields. Defaults: a node built from no options has (1 attempt, 0 wait, concurrency 0, mode unset, no functions); getters return their field, the unset mode reads as continue; the mode setters store exactly the strings continue/stop; a pool size <= 0 becomes 1 (C08.R1); behaviour reads the configuration through the getters of the node being run (C02.R1, C08.R4/R6).",
 		CaseRule:    "an obligation instance is one setter form, one pair of forms, one constructor path or one getter path; distinct = distinct rule@construct keys",
 		Floors: []Floor{{"C19.R1@With*:*", 10, "pairs of equivalent setter forms"}, {"C19.R2@*:single-field", 25, "single-field setters"}, {"C19.R3@*:application", 3, "constructor application loops"}, {"C19.R4@*", 1, "accepted option kinds agree"},
-			{"C19.R5@*:defaults", 3, "defaults of the three constructors"}, {"C19.R5@BaseNode.*:identity", 3, "getters"}, {"C19.R6@*:mode-constants", 3, "mode constants in setters"}, {"C19.R6@*:default-mode", 1, "default mode"}, {"C19.R5@NewWorkerPool:spawn-bound", 1, "pool size <= 0 means one worker"}, {"C19.R7@*", 3, "behaviour reads the getters of the node being run"}},
+			{"C19.R5@*:defaults", 3, "defaults of the three constructors"}, {"C19.R5@BaseNode.*:identity", 3, "getters"}, {"C19.R6@*:mode-constants", 3, "mode constants in setters"}, {"C19.R6@*:default-mode", 1, "default mode"}, {"C19.R5@NewWorkerPool:spawn-bound", 1, "pool size <= 0 means one worker"}, {"C19.R5@NewWorkerPool:make-chan", 1, "constructor does not panic for non-positive sizes"}, {"C19.R7@*", 3, "behaviour reads the getters of the node being run"}},
 		Assumptions: commonAssumptions})
 	reg(&Prop{ID: "C04", Units: []string{"run", "flow", "adapters"}, Technique: "static analysis: path-sensitive error-provenance (wrap-chain) abstract interpretation over go/ssa",
 		Explanation: lifeExpl + " C04 decides on Run (single and batch paths): nil error iff the path ended in a successful post; every error return that follows a failing callback wraps (fmt.Errorf %w / errors.Join / identity) that callback's own error term, and no further phase callback is invoked after it.",
